@@ -12,3 +12,4 @@ driver("drv_strings", variant="asan")
 driver("drv_fileio", variant="asan", cflags="-fno-access-control", ldflags="-Wl,--wrap=read -Wl,--wrap=pread -Wl,--wrap=close")
 driver("drv_subprocess", variant="plain", ldflags="-Wl,--wrap=pipe -Wl,--wrap=waitpid -Wl,--wrap=poll -Wl,--wrap=read -Wl,--wrap=write -Wl,--wrap=close")
 driver("verif_child", variant="plain", lib=False)
+driver("drv_expect", variant="plain")
